@@ -75,7 +75,10 @@ def pfield (mesgNum num : Nat) : Option PField :=
 
 def unknownTxt : Txt := txt nameUnknown
 
-def natDigits (n : Nat) : Txt := txt (toString n)
+/-- decimal digits of `n` as bytes (`strconv.Itoa`; the text layer is taken per contract, see the header) -/
+def natDigits (n : Nat) : Txt := if n < 10 then [48 + n] else natDigits (n / 10) ++ [48 + n % 10]
+termination_by n
+decreasing_by omega
 
 /-- `formatUnknown(n)` = "unknown(n)" -/
 def formatUnknown (n : Nat) : Txt := unknownTxt ++ txt "(" ++ natDigits n ++ txt ")"
